@@ -75,10 +75,14 @@ def run(chk) -> None:
     if not w or not r:
         raise AnchorError("C12.R1: queue (de)serialization sites not found")
     for f in ea:
-        ok = f in sea and kwarg(w[0], f) is not None and f".{f}" in ast.unparse(kwarg(w[0], f))
-        chk.ob("C12.R1", f"queued EventAttempt.{f} is written to the serialized queue entry", ok, m=ms, node=w[0], fn=to_s, instance=f"queue-field-written:{f}", reason="field not carried by SerializedEventAttempt(...)")
-        ok = kwarg(r[0], f) is not None and f".{f}" in ast.unparse(kwarg(r[0], f))
-        chk.ob("C12.R1", f"queued EventAttempt.{f} is read back from the serialized queue entry", ok, m=ms, node=r[0], fn=from_s, instance=f"queue-field-read:{f}", reason="field not restored by from_serialized")
+        # every way a queue entry is written / restored carries the field (a second, leaner constructor on some branch drops it there)
+        lean_w = [c_ for c_ in w if not (kwarg(c_, f) is not None and f".{f}" in ast.unparse(kwarg(c_, f)))]
+        ok = f in sea and not lean_w
+        chk.ob("C12.R1", f"queued EventAttempt.{f} is written to the serialized queue entry", ok, m=ms, node=(lean_w or w)[0], fn=to_s, instance=f"queue-field-written:{f}",
+               reason=f"field not carried by `{ast.unparse((lean_w or w)[0])[:80]}`" + (" (one of several constructions of the entry)" if len(w) > 1 else ""))
+        lean_r = [c_ for c_ in r if not (kwarg(c_, f) is not None and f".{f}" in ast.unparse(kwarg(c_, f)))]
+        ok = not lean_r
+        chk.ob("C12.R1", f"queued EventAttempt.{f} is read back from the serialized queue entry", ok, m=ms, node=(lean_r or r)[0], fn=from_s, instance=f"queue-field-read:{f}", reason="field not restored by from_serialized")
 
     # ---------------------------------------------------------------- R1 InProgressState
     ips = _fields(ms.classes["InProgressState"])
@@ -203,6 +207,7 @@ def _enclosing_loop_iter(node: ast.AST) -> ast.AST:
 
 
 TWINS = [
+    Twin("unattempted queue entries are written without their bookkeeping", "packages/llama-index-workflows/src/workflows/runtime/types/internal_state.py", "                    recovery_counts=dict(attempt.recovery_counts),\n                )\n                for attempt in worker_state.queue", "                    recovery_counts=dict(attempt.recovery_counts),\n                )\n                if attempt.attempts\n                else SerializedEventAttempt(event=serializer.serialize(attempt.event))\n                for attempt in worker_state.queue", "C12.R1"),
     Twin("running invocations equal to a queued one are dropped on restore", "packages/llama-index-workflows/src/workflows/runtime/types/internal_state.py", "            for event_str in worker_data.in_progress:\n                worker.queue.append(", "            already_queued = {attempt.event for attempt in worker_data.queue}\n            for event_str in worker_data.in_progress:\n                if event_str in already_queued:\n                    continue\n                worker.queue.append(", "C12.R2"),
     Twin("queue drops recovery counts", IS_REL, "                    last_failed_at=attempt.last_failed_at,\n                    recovery_counts=dict(attempt.recovery_counts),\n                )\n                for attempt in worker_state.queue", "                    last_failed_at=attempt.last_failed_at,\n                )\n                for attempt in worker_state.queue", "C12.R1"),
     Twin("queue attempts not restored", IS_REL, "                    attempts=attempt.attempts,\n                    first_attempt_at=attempt.first_attempt_at,\n                    last_exception=attempt.last_exception,", "                    attempts=0,\n                    first_attempt_at=attempt.first_attempt_at,\n                    last_exception=attempt.last_exception,", "C12.R1"),
